@@ -25,7 +25,7 @@ EXHAUSTIVE = True
 BUDGET = {"quick": 120, "thorough": 900}
 NCASES = {"quick": 0, "thorough": 0}
 EVAL_COUNTER = "pairs"
-FLOORS = {"quick": {"pairs": 1500, "triples": 50000, "membership": 100}, "thorough": {"pairs": 25000, "triples": 3000000, "membership": 100}}
+FLOORS = {"quick": {"pairs": 1500, "triples": 50000, "membership": 100, "temporaries": 2000}, "thorough": {"pairs": 25000, "triples": 3000000, "membership": 100, "temporaries": 20000}}
 RULE = (
     "all ordered pairs (and triples for transitivity) of the 12 predefined Sobolev spaces and "
     "DirectionalSobolevSpace(orders), orders in {0,1,2,3,inf}^d, d<=2 (quick) / d<=3 (thorough); a pair is "
@@ -203,3 +203,45 @@ def once(ctx):
                     )
         # triples that do not start a chain are still examined (they satisfy the law vacuously)
         ctx.count("triples", (m - len(succ[i])) * m)
+    # ---- temporaries: directional spaces that live for one comparison only (an element whose sobolev_space property builds
+    # DirectionalSobolevSpace(orders) on every call, or an inline DirectionalSobolevSpace(o) <= H1).  Each comparison must be
+    # answered from the orders of the objects compared NOW, whatever lived at the same address before.
+    import random
+
+    rng = random.Random(ctx.seed * 1009 + ctx.sub)
+    named = [(("N", n), getattr(ss, n)) for n in NAMED]
+    pool = [o for d in (1, 2, 3) for o in itertools.product([0, 1, 2, 3, inf], repeat=d)]
+    for _ in range(4000 if ctx.tier == "quick" else 40000):
+        o1 = rng.choice(pool)
+        ka = ("D", o1)
+        if rng.random() < 0.6:
+            kb, b = rng.choice(named)
+            mk_b = lambda b=b: b  # noqa: E731
+        else:
+            o2 = rng.choice([o for o in pool if len(o) == len(o1)])
+            kb = ("D", o2)
+            mk_b = lambda o2=o2: DirectionalSobolevSpace(o2)  # noqa: E731
+        sub, bus = model_sub(ka, kb), model_sub(kb, ka)
+        if sub is None or bus is None:
+            continue
+        which = rng.choice(["lt", "le", "gt", "in"])
+        ctx.count("temporaries")
+        if which == "in":
+            r = _try(lambda: _FE(DirectionalSobolevSpace(o1)) in mk_b())
+            want = sub
+        elif which == "lt":
+            r = _try(lambda: DirectionalSobolevSpace(o1) < mk_b())
+            want = sub and not bus
+        elif which == "le":
+            r = _try(lambda: DirectionalSobolevSpace(o1) <= mk_b())
+            want = sub
+        else:
+            r = _try(lambda: DirectionalSobolevSpace(o1) > mk_b())
+            want = bus and not sub
+        if r[0] != "ok":
+            continue
+        if bool(r[1]) != bool(want):
+            ctx.violation(f"C25/temporaries/{which}-value/{_key(ka, kb)}",
+                          f"{which}({_desc(ka)}, {_desc(kb)}) on freshly created spaces is {r[1]!r}, the inclusion model says {want} "
+                          "(the same comparison on long-lived objects is checked above)")
+
